@@ -1,6 +1,8 @@
 import os, sys
 sys.path.insert(0, os.path.dirname(os.path.dirname(os.path.abspath(__file__))))
 from engine.extract import R
+from specs.common_witprog import SCRIPT_ERROR, WITPROG_CONSTS, WITPROG_FUNCS, ASSUMPTIONS as WITPROG_ASSUMPTIONS
+import copy
 
 def dep(name, var):
     return R(f"ghost:DeploymentActiveAt(..., DEPLOYMENT_{name})", rf"DeploymentActiveAt\(block_index, chainman, Consensus::DEPLOYMENT_{name}\)", var, False)
@@ -19,24 +21,29 @@ SLICES = [
                R("ghost:exception map lookup", r"const auto it\{consensusparams\.script_flag_exceptions\.find\(\*Assert\(block_index\.phashBlock\)\)\};", "", False),
                R("ghost:found in the exception map", r"it != consensusparams\.script_flag_exceptions\.end\(\)", "has_exception", False), R("ghost:it->second", r"it->second", "exception_flags", False),
                dep("DERSIG", "dersig_active"), dep("CLTV", "cltv_active"), dep("CSV", "csv_active"), dep("SEGWIT", "segwit_active")]},
-]
+] + [copy.deepcopy(x) for x in [SCRIPT_ERROR] + WITPROG_CONSTS + WITPROG_FUNCS]
 for _s in SLICES:
-    _s["guard"] = "C11_PASS_FUNCS" if _s["kind"] in ("func", "const_list") else "C11_PASS_CONSTS"
+    _s["guard"] = "C11_PASS_WITPROG" if _s["name"] in ("VerifyWitnessProgram", "IsPayToAnchor") else "C11_PASS_FUNCS" if _s["kind"] in ("func", "const_list") else "C11_PASS_CONSTS"
 PLAN = {
     "id": "C11", "level": "proof", "slices": SLICES, "spec": "spec.c", "default_solver": ["cadical", "z3"],
     "harnesses": [{"name": "h_GetBlockScriptFlags", "enforce": "GetBlockScriptFlags", "twins": [{"define": "TWIN_FLAGS", "expect": "postcondition"}]},
+                  {"name": "h_VerifyWitnessProgram", "enforce": "VerifyWitnessProgram", "twins": [{"define": "TWIN_TAPROOT_OFF", "expect": "postcondition"}]},
+                  {"name": "h_lemma_witprog_flag_monotone", "replace": ["VerifyWitnessProgram"], "twins": [{"define": "TWIN_MONO", "expect": "assertion"}]},
                   {"name": "h_lemma_consensus_subset_of_standard", "replace": ["GetBlockScriptFlags"], "unwind": 8, "twins": [{"define": "TWIN_SUBSET", "expect": "assertion"}]}],
-    "native": {"src": "replay.cpp", "c_src": "native_slices.c", "libs": []},
-    "not_covered": ["the first sentence of the statement: that VerifyScript / EvalScript / VerifyWitnessProgram are monotone in their flags (success under a larger set implies success under a smaller one) and deterministic -- "
-                    "a two-run relational property of a 2000-line interpreter over std::vector stacks, outside the extractor's subset; a change there is NOT detected by this check"],
-    "assumptions": ["DeploymentActiveAt(...) and the exception-map lookup are inputs of GetBlockScriptFlags; flags are bit masks 1 << enumerator (script_verify_flags is a bitset over script_verify_flag_name)",
+    "native": {"src": "replay.cpp", "c_src": "native_slices.c", "repo_sources": ["src/script/script.cpp", "src/script/interpreter.cpp"], "diff_n_quick": 20000, "diff_n_thorough": 2000000,
+               "libs": ["libbitcoin_consensus.a", "libbitcoin_util.a", "libbitcoin_clientversion.a", "libbitcoin_crypto.a", "/repo/_build/src/secp256k1/lib/libsecp256k1.a"]},
+    "not_covered": ["the first sentence of the statement for EvalScript, ExecuteWitnessScript and the non-witness part of VerifyScript: that they are monotone in their flags (success under a larger set implies success under a smaller one) and deterministic -- "
+                    "a two-run relational property of a 2000-line interpreter over std::vector stacks, outside the extractor's subset; only the witness-program dispatch (VerifyWitnessProgram) is proved monotone, "
+                    "with ExecuteWitnessScript's monotonicity ASSUMED in that lemma; the native harness samples flag pairs on the real VerifyScript for witness spends but that is sampling, not proof"],
+    "assumptions": [*WITPROG_ASSUMPTIONS, "lemma h_lemma_witprog_flag_monotone ASSUMES ExecuteWitnessScript succeeds under the smaller flag set whenever it does under the larger one (EvalScript is not under contract); CheckSchnorrSignature, the SHA256 comparison and VerifyTaprootCommitment do not take the flags", "DeploymentActiveAt(...) and the exception-map lookup are inputs of GetBlockScriptFlags; flags are bit masks 1 << enumerator (script_verify_flags is a bitset over script_verify_flag_name)",
                     "the exception values are the literals found in kernel/chainparams.cpp (every `script_flag_exceptions.emplace`)"],
     "manifest": {
         "category": "proof",
-        "text": "partial (flag-set facts only): GetBlockScriptFlags returns the exception value (or P2SH|WITNESS|TAPROOT) plus exactly DERSIG / CHECKLOCKTIMEVERIFY / CHECKSEQUENCEVERIFY / NULLDUMMY for the active deployments; MANDATORY is a subset of STANDARD; every script-flag exception in chainparams is a subset of STANDARD; "
+        "text": "partial: (a) the witness-program dispatch VerifyWitnessProgram (extracted each run, BIP141/BIP341 contract: P2WSH / P2WPKH / taproot key and script path / anchor / upgradable programs) is monotone in its flags -- success under a flag set implies success under every subset, "
+                "given a monotone ExecuteWitnessScript -- in particular a v1 32-byte program is anyone-can-spend without the TAPROOT flag; (b) flag-set facts: GetBlockScriptFlags returns the exception value (or P2SH|WITNESS|TAPROOT) plus exactly DERSIG / CHECKLOCKTIMEVERIFY / CHECKSEQUENCEVERIFY / NULLDUMMY for the active deployments; MANDATORY is a subset of STANDARD; every script-flag exception in chainparams is a subset of STANDARD; "
                 "hence for every block and every deployment state the consensus script flags are a subset of the standard (policy) flags -- the flag-set half of 'accepted under policy flags => verifies under the next block's consensus flags'.",
-        "note": "Not covered: monotonicity of the interpreter in its flags and determinism (the other half). Trusted: extraction rules, bit-mask reading of the flag type.",
-        "technique": "CBMC function contract on extracted GetBlockScriptFlags + contract-only lemma over constants extracted from policy.h / interpreter.h / chainparams.cpp",
+        "note": "Not covered: monotonicity of EvalScript / ExecuteWitnessScript / non-witness VerifyScript in their flags, determinism (sampled natively on the real VerifyScript only). Trusted: extraction rules, bit-mask reading of the flag type.",
+        "technique": "CBMC function contracts on extracted VerifyWitnessProgram and GetBlockScriptFlags + contract-only lemmas (flag monotonicity of the dispatch; subset facts over constants extracted from policy.h / interpreter.h / chainparams.cpp)",
     },
     "trusted_base": ["specs/C11/spec.c"],
 }
